@@ -2,7 +2,7 @@
 # runs every stored seeded change in the seedbox against the quick check of its property; log: work/seedsweep.log
 cd /verif; bin/seedbox.sh sync > /dev/null
 : > work/seedsweep.log
-for d in seeded/C*/; do
+for d in /verif/seeded/C*/; do
   n=$(basename $d); prop=${n%%-*}
   patch=$d/patch.diff
   [ -f $d/patch-rebased-on-11d8424a.diff ] && patch=$d/patch-rebased-on-11d8424a.diff
